@@ -58,6 +58,8 @@ inductive CExpr
   | un (op : UnOp) (e : CExpr)
   | bin (op : BinOp) (a b : CExpr)
   | cond (c a b : CExpr)
+  | land (a b : CExpr)               -- `a && b` (short-circuit, result `int` 0/1)
+  | lor (a b : CExpr)                -- `a || b`
   | call (f : Builtin) (e : CExpr)
   deriving Repr, Inhabited
 
@@ -145,6 +147,8 @@ def CExpr.ty : CExpr → CTy
   | .un _ e => e.ty
   | .bin op a b => if op.isShift then a.ty else if op.isCmp then .i32 else uac a.ty b.ty
   | .cond _ a b => uac a.ty b.ty
+  | .land _ _ => .i32
+  | .lor _ _ => .i32
   | .call _ _ => .i32
 
 def b2c (b : Bool) : CVal := .i32 (if b then 1#32 else 0#32)
@@ -322,6 +326,10 @@ def ceval (args : List CVal) (s : St) : CExpr → Res CVal
   | .cond c a b => (ceval args s c).bind fun vc =>
       if vc.isZero then (ceval args s b).bind fun v => .ok (conv (uac a.ty b.ty) v)
       else (ceval args s a).bind fun v => .ok (conv (uac a.ty b.ty) v)
+  | .land a b => (ceval args s a).bind fun va =>
+      if va.isZero then .ok (b2c false) else (ceval args s b).bind fun vb => .ok (b2c (!vb.isZero))
+  | .lor a b => (ceval args s a).bind fun va =>
+      if va.isZero then (ceval args s b).bind fun vb => .ok (b2c (!vb.isZero)) else .ok (b2c true)
   | .call f e => (ceval args s e).bind fun v => builtin f v
 
 inductive Outcome
